@@ -314,6 +314,11 @@ def eval_jet(prog, x0, K, nodes=None, direction=1):
         k = eval_jet(prog[1], x0, K, nodes, direction)
         j = powr(k, prog[2])
         kids = [k]
+    elif tag == 'pw':
+        a = eval_jet(prog[1], x0, K, nodes, direction)
+        b = eval_jet(prog[2], x0, K, nodes, direction)
+        j = powj(a, b)
+        kids = [a, b]
     elif tag == 'b':
         a = eval_jet(prog[2], x0, K, nodes, direction)
         b = eval_jet(prog[3], x0, K, nodes, direction)
@@ -344,9 +349,14 @@ def np_eval(prog, x):
     if tag == 's':
         return prog[1] * np_eval(prog[2], x)
     if tag == 'u':
-        return getattr(np, prog[1])(np_eval(prog[2], x))
+        arg = np_eval(prog[2], x)
+        if hasattr(np, prog[1]):
+            return getattr(np, prog[1])(arg)
+        return getattr(arg, prog[1])()      # cot, sec, ... exist only as Bicomplex methods
     if tag == 'p':
         return np_eval(prog[1], x) ** prog[2]
+    if tag == 'pw':
+        return np_eval(prog[1], x) ** np_eval(prog[2], x)
     if tag == 'b':
         a = np_eval(prog[2], x)
         b = np_eval(prog[3], x)
@@ -380,6 +390,8 @@ def show(prog):
         return '%s(%s)' % (prog[1], show(prog[2]))
     if tag == 'p':
         return '(%s)**%r' % (show(prog[1]), prog[2])
+    if tag == 'pw':
+        return '(%s)**(%s)' % (show(prog[1]), show(prog[2]))
     return '(%s %s %s)' % (show(prog[2]), prog[1], show(prog[3]))
 
 
@@ -392,3 +404,40 @@ def contains(prog, pred):
 def depth(prog):
     kids = [k for k in prog[1:] if isinstance(k, tuple)]
     return 1 + max([depth(k) for k in kids], default=0) if prog[0] not in ('x', 'c') else 0
+
+
+# ---------------------------------------------------------------------------------------------
+# general power u**v (both jets) and evaluation of programs on mpmath complex numbers
+
+def powj(u, v):
+    return exp(mul(v, log(u)))
+
+
+MPF = dict(exp=mp.exp, log=mp.log, sqrt=mp.sqrt, sin=mp.sin, cos=mp.cos, tan=mp.tan, sinh=mp.sinh,
+           cosh=mp.cosh, tanh=mp.tanh, arctan=mp.atan, arcsin=mp.asin, arccos=mp.acos, arcsinh=mp.asinh,
+           arccosh=mp.acosh, arctanh=mp.atanh, expm1=lambda z: mp.exp(z) - 1, log1p=lambda z: mp.log(1 + z),
+           cot=mp.cot, sec=mp.sec, csc=mp.csc, coth=mp.coth, sech=mp.sech, csch=mp.csch,
+           exp2=lambda z: mp.power(2, z), log2=lambda z: mp.log(z) / mp.log(2),
+           log10=lambda z: mp.log(z) / mp.log(10))
+
+
+def mp_eval(prog, z):
+    """Evaluate the program at an mpmath (complex) number with the working precision."""
+    tag = prog[0]
+    if tag == 'x':
+        return z
+    if tag == 'c':
+        return mp.mpmathify(prog[1])
+    if tag == 's':
+        return mp.mpmathify(prog[1]) * mp_eval(prog[2], z)
+    if tag == 'u':
+        return MPF[prog[1]](mp_eval(prog[2], z))
+    if tag == 'p':
+        return mp.power(mp_eval(prog[1], z), mp.mpmathify(prog[2]))
+    if tag == 'pw':
+        return mp.power(mp_eval(prog[1], z), mp_eval(prog[2], z))
+    if tag == 'b':
+        a, b = mp_eval(prog[2], z), mp_eval(prog[3], z)
+        op = prog[1]
+        return a + b if op == '+' else a - b if op == '-' else a * b if op == '*' else a / b
+    raise ValueError(prog)
